@@ -142,6 +142,14 @@ def _events(ctx, f, eff):
                 cn = cfg.node_containing(n)
                 W.append((cn, n, "dynamic attribute assignment on a task", 'dynamic', None))
                 R.append((cn, n, "dynamic attribute assignment on a task (any setter may reject)", 'dynamic', None))
+        if isinstance(n, ast.Call) and isinstance(n.func, ast.Name) and n.func.id == 'setattr' and len(n.args) == 3 and \
+                not isinstance(n.args[1], ast.Constant):
+            rt = base(ctx.typer.expr_type(n.args[0], f))
+            if rt in ('Task', None):
+                cn = cfg.node_containing(n)
+                if cn is not None:
+                    W.append((cn, n, "dynamic attribute assignment on a task", 'dynamic', None))
+                    R.append((cn, n, "dynamic attribute assignment on a task (any setter may reject)", 'dynamic', None))
     # implicitly raising list operations on builtin lists
     for n in walk_no_nested(f.node):
         if isinstance(n, ast.Call) and isinstance(n.func, ast.Attribute) and n.func.attr in ('remove', 'index') and n.args:
@@ -192,6 +200,9 @@ def order(ctx, o, eff, q):
     prog = ctx.prog
     if q == 'wbs.WBS.__remove' and q not in prog.funcs and _wbs_removers(ctx):
         f = _wbs_removers(ctx)[0]
+    elif q not in prog.funcs and q.count('.') == 2 and prog.classes.get(q.split('.')[1]) is not None and \
+            prog.find_method(q.split('.')[1], q.split('.')[2]) is not None:
+        f = prog.find_method(q.split('.')[1], q.split('.')[2])      # the method moved into a (new) base class
     else:
         f = prog.func(q)
     cfg = cfg_of(f)
@@ -293,10 +304,21 @@ def exempt(ctx, f, eff, w, r):
         return "E1 move() is called with an anchor resolved before the attach (obligation insert_resolves_anchor_first)"
     if (f.qual in ('task._TaskList.remove_all', 'wbs.WBS.remove_all', 'wbs.WBS.remove', 'wbs.WBS.__remove') or any(f is x for x in removers)) \
             and rkind == 'call' and rcallee is not None and \
-            (rcallee.qual in NON_REJECTING or (rcallee.name in ('remove', '__remove', '_check_not_none') and rcallee.qual != 'wbs.WBS.remove')
+            (rcallee.qual in NON_REJECTING or (rcallee.name in ('remove', '__remove', '_check_not_none') and
+                                               (rcallee.qual != 'wbs.WBS.remove' or _facade_receiver(ctx, f, rnode)))
              or any(rcallee is x for x in removers)):
         return "E3 removal of current members cannot be rejected"
     return None
+
+
+def _facade_receiver(ctx, f, call) -> bool:
+    """the call is `<x>.children.remove(..)` / `<x>.roots.remove(..)` (possibly through a hoisted local): a children-list facade, not
+    WBS.remove - the call graph offers every `remove` when the receiver's type is unknown"""
+    try:
+        x = T.expand_call(ctx.prog, f, ctx.typer, call)
+    except Exception:
+        return False
+    return bool(match("$c.children.remove($t)", x) or match("$c.roots.remove($t)", x))
 
 
 def _is_reroot(ctx, f, node) -> bool:
@@ -549,10 +571,45 @@ def move_requirements(f):
     ]
 
 
+def move_anchor_rebound(ctx, f):
+    """[(assignment stmt, name)]: the anchor looked up by `self._list.index(..)` gets a new value inside a loop of the relocation phase,
+    i.e. after the validation of before/after was done"""
+    prog = ctx.prog
+    cfg = cfg_of(f)
+    fl = flow_of(f)
+    out = []
+    for c in facts.calls_named(f, 'index'):
+        if not match("self._list.index($x)", T.expand_call(prog, f, ctx.typer, c)) or not c.args:
+            continue
+        cn = cfg.node_containing(c)
+        todo, seen = [n.id for n in ast.walk(c.args[0]) if isinstance(n, ast.Name)], set()
+        while todo:
+            nm = todo.pop()
+            if nm in seen:
+                continue
+            seen.add(nm)
+            for d in fl.reaching(nm, cn):
+                if d.node is None or d.kind in ('for',):
+                    continue
+                if cfg.enclosing_fors(d.node) and d.stmt is not None and not any(x is d.stmt for x, _ in out):
+                    # defined anew in every round of a loop: fine only if it is a plain function of loop-invariant anchors
+                    val = d.value
+                    if val is not None and all(isinstance(n, ast.Name) and n.id in f.params[2:4] or not isinstance(n, ast.Name)
+                                               for n in ast.walk(val)) and not any(isinstance(n, ast.Call) for n in ast.walk(val)):
+                        continue
+                    out.append((d.stmt, nm))
+                elif d.value is not None:
+                    todo += [n.id for n in ast.walk(d.value) if isinstance(n, ast.Name)]
+    return out
+
+
 def move_rule(ctx, o):
     prog = ctx.prog
     f = prog.func('task._ChildrenList.move')
     eff = Effects(prog, ctx.typer, ctx.cg)
+    for st_, nm in move_anchor_rebound(ctx, f):
+        o.refute(f, st_, st_, f"the anchor `{nm}` is re-bound inside the relocation loop (`{src(st_)[:50]}`), after before/after were validated: "
+                              f"index() of the new anchor can fail after remove(task) already changed the list")
     writes = [w for w in relation_write_nodes(ctx, f, eff) if isinstance(w[1], ast.AST)]
     if not writes:
         o.undecided(f, f.node, 'move', "no list change found")
